@@ -181,6 +181,7 @@ func (r *e1Run) appendEntry(typ raft.LogType, msg *robust.Message) *logEntry {
 	e := &logEntry{Index: idx, Type: typ}
 	if msg != nil {
 		msg.UnixNano = r.now().UnixNano()
+		*useProtobuf = r.nodes[0].proto // the leader's API encodes the message
 		e.Data = encodeMsg(msg)
 		// decode as the nodes will
 		m := robust.NewMessageFromBytes(e.Data, robust.IdFromRaftIndex(idx))
@@ -518,7 +519,7 @@ func e1Execute(sc *e1Scenario, prop string, res *core.Result) error {
 		if mode > 2 {
 			mode = 2
 		}
-		n := &e1Node{idx: k, dir: filepath.Join(root, fmt.Sprintf("n%d", k)), order: &verifrt.Order{Mode: mode, Seed: core.Mix(sc.Seed, uint64(k))}}
+		n := &e1Node{idx: k, dir: filepath.Join(root, fmt.Sprintf("n%d", k)), order: &verifrt.Order{Mode: mode, Seed: core.Mix(sc.Seed, uint64(k))}, proto: !sc.JSONEnc, protoSet: true}
 		if err := n.start(); err != nil {
 			return err
 		}
@@ -727,6 +728,15 @@ func (r *e1Run) execStep(st e1Step) {
 	case "snap":
 		r.snap(st)
 	case "restart":
+		r.restart(st)
+	case "upgrade":
+		// rolling encoding upgrade: from now on messages, stores and snapshots use protobuf; the node is
+		// restarted so that its stores are converted on open
+		if n := r.node(st.N); n != nil && n.idx != 0 && !n.proto {
+			n.proto = true // the restarted process runs with -pre1.0_protobuf=true and converts its stores on open
+			r.res.Add("encoding_upgrades", 1)
+			r.tr.Log("upgrade n%d to protobuf", n.idx)
+		}
 		r.restart(st)
 	case "install":
 		r.install(st)
